@@ -51,9 +51,9 @@ class Boolean(Scalar):
         """
 
         if np.isscalar(self._values_):
-            result = Scalar(int(self._values_))
+            result = Scalar(int(self._values_), self._mask_)
         else:
-            result = Scalar(self._values_.astype('int'))
+            result = Scalar(self._values_.astype('int'), self._mask_)
 
         return result
 
@@ -67,9 +67,9 @@ class Boolean(Scalar):
         """
 
         if np.isscalar(self._values_):
-            result = Scalar(float(self._values_))
+            result = Scalar(float(self._values_), self._mask_)
         else:
-            result = Scalar(self._values_.astype('float'))
+            result = Scalar(self._values_.astype('float'), self._mask_)
 
         return result
 
